@@ -44,7 +44,7 @@ def gen_call(rng, measure=None, njobs_choices=(1, 1, 1, 2, 3, 5, -1, -20), bound
     return call
 
 
-def boundary_call(rng, measure):
+def boundary_call(rng, measure, force_tie=None):
     """A pair of sets sitting exactly on a threshold, common tokens ranked LAST (most frequent),
     plus filler rows: the worst case for prefix/position pruning."""
     import py_stringmatching as sm
@@ -64,7 +64,7 @@ def boundary_call(rng, measure):
         if rng.random() < 0.5:
             a, b = b, a
     tie_ = False
-    if measure in ('JACCARD', 'DICE', 'COSINE') and rng.random() < 0.15:
+    if measure in ('JACCARD', 'DICE', 'COSINE') and (force_tie or rng.random() < 0.15):
         # scores that are exact binary TIES at the fifth decimal (m/32, m odd): round-half-even and
         # round-half-up give different 4-decimal scores when m = 1 (mod 4), e.g. 25/32 = 0.78125
         tie_ = True
@@ -78,6 +78,13 @@ def boundary_call(rng, measure):
             a = rng.choice([32, 30, 29]) if m_ <= 29 else 32
             a = max(a, m_)
             b = 64 - a
+        elif force_tie == 'irrational' or rng.random() < 0.5:
+            # o / sqrt(a*b) an exact fifth-decimal tie although sqrt(a), sqrt(b) are irrational: the
+            # product form and a chained division o / sqrt(a) / sqrt(b) differ in the last bit here
+            a, b, o = rng.choice([(32, 288, 21), (72, 128, 21), (72, 128, 39), (128, 200, 31), (128, 200, 75),
+                                  (128, 200, 115), (128, 288, 42), (128, 288, 78)])
+            if rng.random() < 0.5:
+                a, b = b, a
         else:
             if m_ > 16:
                 a, b, o = 32, 32, m_
@@ -319,6 +326,15 @@ def run(seed, n, measures=None, boundary_frac=0.3, empty_frac=0.08):
             call = ed_family_call(rng)
         else:
             call = gen_call(rng, m)
+        if rng.random() < 0.03 and call['measure'] != 'EDIT_DISTANCE':
+            # more right rows than CPUs, n_jobs above the CPU count (every chunk must be processed)
+            ncpu = T.cpu_count()
+            need = 3 * (ncpu + 4)
+            Lw, Rw, namesw = T.gen_tables(rng, call['kind'], max_rows=need, missing_p=0.0, universe_size=8)
+            while len(Rw) < need:
+                Lw, Rw, namesw = T.gen_tables(rng, call['kind'], max_rows=need, missing_p=0.0, universe_size=8)
+            call = dict(call, L=Lw.head(4), R=Rw, names=namesw, l_out=None, r_out=None,
+                        njobs=rng.choice([ncpu + 4, ncpu + 1]), tcls='wide')
         call['rs0'] = call['tok'].get_return_set()
         df = run_call(call)
         for k, v in (('measure', call['measure']), ('op', call['op']), ('njobs', call['njobs']),
